@@ -243,6 +243,14 @@ _NMEA_PROP = [
     b"PUBX,41,1,0007,0003,19200,0",
     b"PGRME,15.0,M,45.0,M,25.0,M",
     b"PZZZ,{n}",
+    b"PASHR,{t},{alt},T,1.0,2.0,3.0,0.1,0.1,0.1,2,1",
+    b"PASHR,POS,0,{n},{t},{lat},N,{lon},W,{alt},,0.0,0.0,0.0,1.0,1.0,1.0,1.0,ABCD",
+    b"PTNL,GGK,{t},060321,{lat},N,{lon},W,3,{n},1.7,EHT{alt},M",
+    b"PSSN,HRP,{t},060321,{alt},1.0,2.0,0.1,0.1,0.1,{n},1,1",
+    b"PFEC,GPatt,{alt},1.0,2.0",
+    b"PGPPADV,110,{lat},{lon},{alt}",
+    b"PQTMVERNO,SIM{n},2021/03/06,{t}",
+    b"PSTI,030,{t},A,{lat},N,{lon},W,{alt},0.0,0.0,0.0,060321,A,1.0,1.0",
 ]
 
 
@@ -298,6 +306,23 @@ def nmea_any(rng, serial=None):
         parts = content.split(b",")
         content = b",".join(parts[:1] + [b"" for _ in parts[1:]])
         note += " +emptyfields"
+    elif oddity < 0.18:  # firmware variant: fewer fields than the definition (checksum valid)
+        parts = content.split(b",")
+        keep = rng.randrange(1, len(parts) + 1)
+        content = b",".join(parts[:keep])
+        if rng.random() < 0.3:
+            content += b","
+        note += f" +fields_cut@{keep}"
+    elif oddity < 0.22:  # firmware variant: more fields than the definition
+        content += b"," + b",".join(rng.choice((b"", b"1", b"A", b"1.5")) for _ in range(rng.randrange(1, 6)))
+        note += " +extrafields"
+    elif oddity < 0.24:  # a field shortened to 0-1 characters
+        parts = content.split(b",")
+        if len(parts) > 1:
+            i = rng.randrange(1, len(parts))
+            parts[i] = parts[i][: rng.randrange(0, 2)]
+            content = b",".join(parts)
+        note += " +shortfield"
     if rng.random() < 0.06:
         s = b"$" + content + b"*" + rng.choice((b"00", b"ZZ", b"7", b"")) + b"\r\n"
         return s, note + " badck"
